@@ -337,6 +337,9 @@ func lookup(instr *ssa.Lookup, x, idx value) value {
 // numeric datatypes and strings.  Both operands must have identical
 // dynamic type.
 func binop(op token.Token, t types.Type, x, y value) value {
+	if r, ok := symDecimalBinop(op, x, y); ok {
+		return r
+	}
 	if i := ownerOf(x, y); i != nil {
 		if _, ok := x.(poison); ok {
 			return x
